@@ -1533,9 +1533,7 @@ def compress_methods(cx):
             cap = {"rank": rank, "chi": chi_in, "none": None, "big": chi_in + 3, "half": max(1, rank // 2), "one": 1}[capmode]
             opts = dict(method=method, max_bond=cap, sweep_reverse=reverse, normalize=normalize, equalize_norms=eqn,
                         inplace=inplace)
-            if cutoff is not None and not (kind == "mps+same" and "projector" in method):
-                # (the projector guess divides by the singular values it keeps: cutoff = 0 on an exactly rank-deficient
-                # input is outside its meaningful domain)
+            if cutoff is not None:
                 opts["cutoff"] = cutoff
             if "src" in method or method in ("fit", "fit-oversample"):
                 opts["seed"] = seed % 1000
